@@ -129,6 +129,7 @@ func runC19(c *Ctx) {
 	R.Add("E7.sinks", fmt.Sprintf("attachment / %d file-creating call sites", nSinks), "", report.Discharged, "")
 	R.Notes["sinks"] = nSinks
 	R.Require("E7.path", 3, "")
+	c.sessionMessageFresh("S.own-header")
 	R.Assume = append(R.Assume,
 		"Header.TerminalPhoneNo is the Bcd2Dec rendering of BCD bytes: alphabet [0-9a-f], no separators (panic freedom and layout of Bcd2Dec are C02/C03's subject)",
 		"filepath.Base returns the last path element: no separator inside, never empty",
@@ -293,4 +294,43 @@ func (c *Ctx) c19ByInterpretation() map[*ssa.Call]string {
 		out[call] = strings.Join(dedupe(v.bad), "; ")
 	}
 	return out
+}
+
+// sessionMessageFresh: the terminal directory is named after Header.TerminalPhoneNo of the session's most recent control
+// message, read when the session ends. That header must belong to this session for as long as the session keeps it:
+// every JTMessage the attachment package decodes a control frame into is an object created for that frame (an
+// allocation or a constructor call, inside every loop around the decode) - not one taken from a pool, a package-level
+// variable or a field that other sessions (or later frames after a release) decode into as well.
+func (c *Ctx) sessionMessageFresh(rule string) {
+	R := c.R
+	R.Rules[rule] = "every JTMessage the attachment server decodes a control frame into is created for that frame (allocation / constructor, not a pool, a package variable or a reused field): the header a session keeps - from which the terminal directory is named at the end - cannot be overwritten by another session's frames"
+	n := 0
+	for _, fn := range c.RepoFuncs("attachment") {
+		for _, b := range fn.Blocks {
+			for _, ins := range b.Instrs {
+				call, isC := ins.(*ssa.Call)
+				if !isC {
+					continue
+				}
+				sc := call.Call.StaticCallee()
+				if sc == nil || sc.Name() != "Decode" || !strings.Contains(sc.String(), "JTMessage") || len(call.Call.Args) == 0 {
+					continue
+				}
+				n++
+				ok, why := c.freshPerEvaluation(call.Call.Args[0], call)
+				st := report.Discharged
+				if !ok {
+					st = report.Violated
+					why = "the frame is decoded into an object that is not created for it: " + why + " - the session's RecentTerminalMessage can be rewritten with another terminal's phone number before the files are stored"
+				} else {
+					why = ""
+				}
+				R.Add(rule, fmt.Sprintf("%s / %s", shortFn(fn), c.constructOf(fn, call)), c.P.RelPos(call.Pos()), st, why)
+			}
+		}
+	}
+	if n == 0 {
+		R.Fatal("%s: no call of JTMessage.Decode in the attachment package (anchor)", rule)
+	}
+	R.Require(rule, 1, "")
 }
